@@ -427,6 +427,12 @@ def run(ctx):
                 fs = fs or summarize(prog, f)
                 t = fs.ta.terms_at.get(n.args[0]) if n.args else None
                 ok = t is not None and flows_from(fs, f, t, lambda x: call_is(x, GETR))
+                if not ok and t is not None and not prog.is_known(f.qual):
+                    # a helper that walks what it is given: every caller in the class gives it elements of a valid-response list
+                    from ..helpers import passed_for
+                    ps_ = sorted({x[1] for x in subterms(t) if x[0] == "param" and x[1] in f.params[1:]})
+                    sites_ = [s_ for p_ in ps_ for s_ in passed_for(prog, list(ac.methods.values()), f, p_)]
+                    ok = bool(ps_) and bool(sites_) and all(flows_from(cs_, cf_, a_, lambda x: call_is(x, GETR)) for cf_, cs_, a_ in sites_)
                 ctx.count("update_state_calls")
                 ctx.ob("C13.c", f.qual, ok, "_update_state receives an element of a valid-response list", func=f.qual, file=f.module.rel, node=n,
                        detail={"argument": show(t) if t else None},
